@@ -8,6 +8,7 @@ import (
 	"strings"
 
 	"github.com/squadracorsepolito/acmelib"
+	"verif/vinv"
 )
 
 type runner struct {
@@ -102,25 +103,13 @@ func (r *runner) shareLayout(xs []int) bool {
 	return false
 }
 
-// has x (inside a multiplexer) a follower that is held by more than one group?
-func (r *runner) sharedFollower(x int) bool {
-	sn := r.cur
-	if x < 0 || x >= len(sn.sigs) {
+// D35 classifier (value-based, shared with other checks: vinv.SharedFollowerMoved): x sits in a
+// multiplexer and a size change by amount would move a follower held by two or more groups
+func (r *runner) sharedFollowerMoved(x, amount int) bool {
+	if x < 0 || x >= len(r.w.sigs) {
 		return false
 	}
-	u := sn.sigs[x].pu
-	if u < 0 || sn.mux[u] == nil {
-		return false
-	}
-	for _, g := range sn.groupsHolding(u, x) {
-		i := idxOf(g.hs, x)
-		for _, y := range g.hs[i+1:] {
-			if y >= 0 && sn.groupCountHolding(u, y) > 1 {
-				return true
-			}
-		}
-	}
-	return false
+	return vinv.SharedFollowerMoved(r.w.sigs[x], amount)
 }
 
 // the declarative enum size after an index change
@@ -215,8 +204,12 @@ func (r *runner) zoneOf(o op, ep enumPlan) string {
 			}
 			return "reattach"
 		}
-	case "settype", "setenum":
-		if o.a < len(sn.sigs) && sn.attached(o.a) && r.sharedFollower(o.a) {
+	case "settype":
+		if o.a < len(sn.sigs) && sn.attached(o.a) && r.sharedFollowerMoved(o.a, o.z-sn.sigs[o.a].size) {
+			return "d35"
+		}
+	case "setenum":
+		if o.a < len(sn.sigs) && o.b < len(sn.enums) && sn.attached(o.a) && r.sharedFollowerMoved(o.a, sn.enums[o.b].size-sn.sigs[o.a].size) {
 			return "d35"
 		}
 	case "addvalue", "updateindex", "setminsize":
@@ -234,7 +227,7 @@ func (r *runner) zoneOf(o op, ep enumPlan) string {
 			return "d36"
 		}
 		for _, x := range refs {
-			if r.sharedFollower(x) {
+			if r.sharedFollowerMoved(x, ep.newSize-ep.oldSize) {
 				return "d35"
 			}
 		}
